@@ -16,7 +16,7 @@ from wire import quicref as Q
 
 BASE = dict(SuiteSet='{"1301","1302","1303","1304"}', OfferFirst='{"same","other","grease"}',
             Splits='{<<1>>,<<1,2>>,<<2,1>>,<<3,1,2>>,<<2,3,1>>,<<3,2,1>>}', MaxApp="2", MaxGen="3", AllowEarlyGuess="FALSE",
-            Retries="BOOLEAN", ZeroRtts="BOOLEAN", EmitOn="FALSE", AllowLate="FALSE", AllowLateAcrossKu="FALSE")
+            Retries="BOOLEAN", ZeroRtts="BOOLEAN", EmitOn="FALSE", AllowLate="FALSE", AllowLateAcrossKu="FALSE", NoisePhases="{}")
 INV = ["OutputIsPrefix", "CryptoOk", "EpochOk", "KeysOk", "DoneExact"]
 DEFS = "DoneExact == Done => DgramsEqualStreamData"
 CIDLENS = [0, 1, 4, 8, 16, 20]
@@ -40,7 +40,7 @@ def _one(job):
         return dict(machinery=traceback.format_exc()[-1500:], job=[b, seed, params])
     pred = [(e["d"], b"".join(payload[i] for i in e["ids"])) for e in b["out"]]
     truth = [(g.d, g.stream) for g in c.dgrams if g.stream]
-    why, ok = "", True
+    why, ok, deviation = "", True, False
     if res.crashed:
         ok, why = False, "run aborted: " + res.exc.strip().splitlines()[-1]
     else:
@@ -51,7 +51,10 @@ def _one(job):
             ok, why = False, "output malformed: " + probs[0]
         else:
             g2 = [(d, pl) for d, ts, pl in got]
-            if g2 == pred and pred != truth:
+            noise = any(p["t"] == "N" for dg in b["hist"] for p in dg["pkts"])
+            if g2 == pred and pred != truth and noise:
+                deviation = True        # documented deviation (Quic.tla NoiseDatagram, phase "flip"): model and code agree that the direction goes dark
+            elif g2 == pred and pred != truth:
                 # the implementation-shaped model predicts a deviation from the contract here (named deviation taken)
                 ok, why = False, ("0-RTT stream data is not exported: the early keys were derived from the first offered suite before the "
                                   "ServerHello was seen" if b["kf"] else "model and code agree on an export that differs from the data sent")
@@ -71,7 +74,7 @@ def _one(job):
                 if ts_in != ts_out and "-a" not in opts:
                     ok, why = False, "exported datagrams do not carry the capture times of their input datagrams"
     ev = [e for e in res.events if e["ev"] in ("qpn", "qepoch", "qcrypto", "qdec")]
-    return dict(ok=ok, why=why, b=b, seed=seed, params=params, opts=opts, events=ev, pred_is_truth=(pred == truth),
+    return dict(ok=ok, why=why, b=b, seed=seed, params=params, opts=opts, events=ev, pred_is_truth=(pred == truth), deviation=deviation,
                 pkts=[[dict(d=g.d, **m) for m in g.packets] for g in c.dgrams], nstream=len(pred))
 
 
@@ -104,6 +107,17 @@ def run(chk):
     behs += gen(chk, dict(ku, MaxApp="5"), 15 if quick else 300, chk.seed + 1)
     late = gen(chk, dict(ku, MaxApp="5", AllowLate="TRUE"), 15 if quick else 300, chk.seed + 3)
     behs += [b for b in late if [d["sn"] for d in b["hist"]] != sorted(d["sn"] for d in b["hist"])]
+    # undecryptable short-header datagrams on the connection's own 4-tuple (same phase: harmless; other phase: documented deviation,
+    # the export must equal the model's prediction)
+    r4 = tlc.run("Quic", dict(BASE, **dict(ku, NoisePhases='{"same"}', MaxApp="4")), invariants=INV + ["PerDirPrefix"], view="View", timeout=900, extra_defs=DEFS)
+    chk.tlc("Quic exhaustive with same-phase noise datagrams", r4)
+    r5 = tlc.run("Quic", dict(BASE, **dict(ku, NoisePhases='{"same","flip"}', MaxApp="4")), invariants=["PerDirPrefix", "CryptoOk", "KeysOk"], view="View", timeout=900, extra_defs=DEFS)
+    chk.tlc("Quic exhaustive with other-phase noise: per-direction prefix", r5)
+    r6 = tlc.run("Quic", dict(BASE, **dict(ku, NoisePhases='{"flip"}', MaxApp="3")), invariants=["DoneExact"], view="View", timeout=600, extra_defs=DEFS)
+    chk.tlc("other-phase noise makes a direction go dark (documented deviation outside the property, expected counterexample)", r6, expect_ok=False)
+    chk.extra["documented_deviation_noise_other_phase"] = r6.violated
+    nb = gen(chk, dict(ku, MaxApp="5", NoisePhases='{"same","flip"}'), 15 if quick else 300, chk.seed + 4)
+    behs += [b for b in nb if any(p["t"] == "N" for dg in b["hist"] for p in dg["pkts"])][: 150 if quick else 3000]
     kfb = [b for b in gen(chk, dict(AllowEarlyGuess="TRUE", ZeroRtts="{TRUE}", OfferFirst='{"other","grease"}', MaxApp="1"), 5 if quick else 40, chk.seed + 2)
            if b["kf"]]
     rng.shuffle(behs)
@@ -128,13 +142,15 @@ def run(chk):
                                      res["params"]], sort_keys=True))
         chk.sample(dict(suite=b["suite"], first_offered=b["first"], ch_split=b["split"], retry=b["retry"], zero_rtt=b["zrtt"],
                         datagrams=[[p["t"] + str(p["gen"]) for p in d["pkts"]] for d in b["hist"]], params=res["params"], ok=res["ok"]), limit=3)
+        if res["deviation"]:
+            chk.extra["documented_deviation_runs_matching_the_model"] = chk.extra.get("documented_deviation_runs_matching_the_model", 0) + 1
         if not res["ok"]:
             kf = "KF_EarlySuiteGuess" if b["kf"] else None
             if b["kf"] and not b["zrtt"]:
                 kf = None
             chk.violation(f"suite {b['suite']} first={b['first']} split={b['split']} retry={b['retry']} 0rtt={b['zrtt']}: {res['why']}",
                           dict(behaviour=b, seed=res["seed"], params=res["params"], opts=res["opts"], why=res["why"]), kf_key=kf)
-        elif res["events"]:
+        elif res["events"] and not res["deviation"] and not any(f["ft"] == "noise" and f["a"] == "flip" for dg in b["hist"] for p in dg["pkts"] for f in p["frames"]):       # (a documented deviation breaks the qepoch clause of the contract by definition)
             traces.append(dict(events=res["events"], pkts=res["pkts"], b=b, seed=res["seed"], params=res["params"], retry=b["retry"]))
     # the repository's QUIC sample captures (quiche / browser traffic incl. a key update and a 1500-datagram download), every capture with
     # every key log of the directory: export vs. an independent passive QUIC decryptor (wire/quicdec.py)
